@@ -820,3 +820,97 @@ func ruleG9(r *Run) {
 	})
 	r.Check(atomicDec == 2, "Forking fails only when every server failed", ffd.Pos(), "atomic.AddInt64(&count,-1) <= 0 on both failure branches", "the all-failed condition is no longer `atomic.AddInt64(&count, -1) <= 0` on the error and the panic branch: Forking fails while a server could still succeed, or never returns")
 }
+
+// ---------------------------------------------------------------------------------------
+// G10 rotating index (C16 failover rotation, C18 round robin)
+
+func init() {
+	register("G10", "a rotating index obtained with atomic.Add is only returned under `i < n`, every other return is the constant 0 (the index is always in range), and the overflow path resets the shared counter to 0 so that rotation continues", 2, ruleG10)
+}
+
+func ruleG10(r *Run) {
+	p := r.P
+	p.EachFunc(func(pkg *packages.Package, fd *ast.FuncDecl) {
+		info := pkg.TypesInfo
+		// i := atomic.AddInt64(P, 1)
+		var iObj types.Object
+		var ptr string
+		var addPos token.Pos
+		ast.Inspect(fd.Body, func(n ast.Node) bool {
+			as, ok := n.(*ast.AssignStmt)
+			if !ok || len(as.Lhs) != 1 || len(as.Rhs) != 1 {
+				return true
+			}
+			call, ok := ast.Unparen(as.Rhs[0]).(*ast.CallExpr)
+			if !ok {
+				return true
+			}
+			if f := Callee(info, call); f != nil && FullName(f) == "sync/atomic.AddInt64" && len(call.Args) == 2 {
+				if c, ok := intConst(info, call.Args[1]); ok && c == 1 {
+					iObj, ptr, addPos = identObj(info, as.Lhs[0]), types.ExprString(call.Args[0]), call.Pos()
+				}
+			}
+			return true
+		})
+		if iObj == nil || fd.Type.Results == nil || len(fd.Type.Results.List) != 1 {
+			return
+		}
+		// is i compared with a bound?
+		var cmp *ast.IfStmt
+		ast.Inspect(fd.Body, func(n ast.Node) bool {
+			if ifs, ok := n.(*ast.IfStmt); ok {
+				if be, ok := ifs.Cond.(*ast.BinaryExpr); ok && be.Op == token.LSS && identObj(info, be.X) == iObj {
+					cmp = ifs
+				}
+			}
+			return true
+		})
+		if cmp == nil {
+			return
+		}
+		key := "rotating index " + p.DeclName(fd)
+		parents := parentMap(fd.Body)
+		bad := ""
+		ast.Inspect(fd.Body, func(n ast.Node) bool {
+			ret, ok := n.(*ast.ReturnStmt)
+			if !ok || len(ret.Results) != 1 {
+				return true
+			}
+			if identObj(info, ret.Results[0]) == iObj {
+				inThen := false
+				for y := parents[ret]; y != nil; y = parents[y] {
+					if y == ast.Node(cmp.Body) {
+						inThen = true
+					}
+				}
+				if !inThen {
+					bad = "the incremented counter is returned outside the `i < n` branch: an out-of-range server index"
+				}
+			} else if c, ok := intConst(info, ret.Results[0]); !ok || c != 0 {
+				bad = "a return value other than the in-range counter or 0"
+			}
+			return true
+		})
+		reset := false
+		ast.Inspect(fd.Body, func(n ast.Node) bool {
+			call, ok := n.(*ast.CallExpr)
+			if !ok || call.Pos() < cmp.End() {
+				return true
+			}
+			if f := Callee(info, call); f != nil && FullName(f) == "sync/atomic.StoreInt64" && len(call.Args) == 2 && types.ExprString(call.Args[0]) == ptr {
+				if c, ok := intConst(info, call.Args[1]); ok && c == 0 {
+					reset = true
+				}
+			}
+			return true
+		})
+		switch {
+		case bad != "":
+			r.Viol(key, addPos, bad)
+		case !reset:
+			r.Viol(key, addPos, "on the overflow path (counter >= n) the shared counter is not reset to 0: after n increments the function returns 0 for ever and rotation stops (failover keeps retrying the first server, round robin serves only one)")
+		default:
+			r.Ok(key, addPos, "in-range returns and wrap-around reset")
+		}
+	})
+}
